@@ -434,7 +434,11 @@ func (c *Ctx) rulesR4nochange() {
 		return
 	}
 	n := 0
-	for _, r := range returnsOf(f) {
+	var rets []*ssa.Return
+	for _, hf := range c.hostedFns(f) {
+		rets = append(rets, returnsOf(hf)...)
+	}
+	for _, r := range rets {
 		mentioned := map[string]bool{}
 		uses := false
 		for _, g0 := range guardsOf(r.Block()) {
@@ -609,7 +613,36 @@ func (c *Ctx) rulesR4ctxret() {
 			}
 		}
 	}
-	if n < 4 {
+	// a Process* method that expires the contexts itself (helper inlined: it
+	// deletes from a *Ctx index and calls no process*Ctx) has nothing to hand over
+	inl := 0
+	for _, f := range c.Funcs {
+		recv := f.Signature.Recv()
+		if recv == nil || f.Parent() != nil || namedOf(recv.Type()) == nil || namedOf(recv.Type()).Obj() != sub.Obj() || !strings.HasPrefix(f.Name(), "Process") {
+			continue
+		}
+		callsCtx, deletes := false, false
+		for _, b := range f.Blocks {
+			for _, ins := range b.Instrs {
+				ci, ok := ins.(ssa.CallInstruction)
+				if !ok {
+					continue
+				}
+				if cal := ci.Common().StaticCallee(); cal != nil && strings.HasSuffix(cal.Name(), "Ctx") && strings.HasPrefix(cal.Name(), "process") {
+					callsCtx = true
+				}
+				if bi, ok := ci.Common().Value.(*ssa.Builtin); ok && bi.Name() == "delete" && len(ci.Common().Args) == 2 {
+					if fl := loadOfField(ci.Common().Args[0]); fl != nil && strings.HasSuffix(fl.Name(), "Ctx") {
+						deletes = true
+					}
+				}
+			}
+		}
+		if deletes && !callsCtx {
+			inl++
+		}
+	}
+	if n+inl < 4 {
 		c.undecided(fmt.Sprintf("C13.ctxret: only %d returns after a process*Ctx call found (expected >= 4)", n))
 	}
 }
